@@ -148,7 +148,7 @@ FACTS = {"C01": ["DispatchMerge"], "C02": ["DispatchMerge"], "C03": ["Formats", 
 TRANS = {"C01": ["TransMerge", "TransMatch", "TransUtil", "TransFilter", "SourceC01"], "C02": ["TransMerge", "TransMatch", "SourceMatch"],
          "C06": ["TransValidate", "TransFinalize", "SourceC06"], "C07": ["TransValidate", "TransMerge", "SourceC07"], "C09": ["TransFinalize"],
          "C10": ["TransMatch", "TransMerge", "TransGet", "SourceC10"], "C11": ["TransUtil", "TransFilter", "TransOutput", "SourceC11"],
-         "C12": ["TransFilter", "TransRepeat", "TransProcess2", "SourceC12"], "C13": ["TransRepeat", "TransGet", "TransProcess2"],
+         "C12": ["TransFilter", "TransRepeat", "TransProcess2", "SourceC12"], "C13": ["TransRepeat", "TransGet", "TransProcess2", "SourceC13"],
          "C14": ["TransEncode", "TransEncode2", "TransProcess2", "SourceC14"], "C15": ["TransBkld", "TransMerge", "SourceC15"], "C16": ["TransBkli", "SourceC16"],
          "C17": ["TransBklr", "TransMerge", "SourceC17"], "C19": ["TransUtil", "TransMerge"]}
 for _p, _ms in TRANS.items():
